@@ -57,19 +57,28 @@ def brute_force(rows, betas):
 def gen_cases(rng, n, tmax, kmax):
     cases = []
     for idx in range(n):
-        stream = ["real", "ints", "edge", "betaforms", "layout"][idx % 5]
+        stream = ["real", "ints", "edge", "betaforms", "layout", "dtype"][idx % 6]
         T = int(rng.integers(1, tmax + 1))
         K = int(rng.integers(1, kmax + 1))
         if stream == "edge":
             T, K = [(1, K), (T, 1), (1, 1), (2, K), (T, 2)][int(rng.integers(0, 5))]
-        if stream == "ints":
+        dtype = "float64"
+        if stream == "dtype":
+            # the same numbers held in another array dtype (exactly representable there) must give the same result
+            dtype = ["int64", "float32", "int32"][idx // 6 % 3]   # float16 arrays cannot be typed by Numba
+            tab = rng.integers(-40, 41, size=(T, K)).astype(np.float64) * (2.0 ** int(rng.integers(0, 18)) if dtype in ("int64", "float32") else 1.0)
+            if dtype == "float32":
+                tab = tab + rng.integers(0, 2, size=(T, K)) * 0.5
+        elif stream == "ints":
             tab = rng.integers(-2, 3, size=(T, K)).astype(np.float64)
         else:
             mag = 10.0 ** rng.uniform(-12, 12, size=(T, K)) if rng.random() < 0.5 else 10.0 ** rng.uniform(-2, 3)
             tab = rng.standard_normal((T, K)) * mag
         form = "scalar"
         r = rng.random()
-        if stream == "ints":
+        if stream == "dtype":
+            beta = float(rng.integers(0, 9)) * 0.5 if r < 0.5 else rng.integers(0, 9, size=T).astype(np.float64) * 0.25
+        elif stream == "ints":
             beta = float(rng.integers(0, 3)) if r < 0.5 else rng.integers(0, 3, size=T).astype(np.float64)
         elif stream == "edge" and r < 0.3:
             beta = 0.0
@@ -88,7 +97,7 @@ def gen_cases(rng, n, tmax, kmax):
         layout = "C"
         if stream == "layout":
             layout = ["F", "readonly", "view"][int(rng.integers(0, 3))]
-        cases.append({"stream": stream, "table": tab, "beta": beta, "btype": btype, "layout": layout})
+        cases.append({"stream": stream, "table": tab, "beta": beta, "btype": btype, "layout": layout, "dtype": dtype})
     return cases
 
 
@@ -104,6 +113,9 @@ def kernel_batch(cases):
     out = []
     for c in cases:
         tab = c["table"]
+        if c.get("dtype", "float64") != "float64":
+            tab = tab.astype(c["dtype"])
+            assert np.array_equal(tab.astype(np.float64), c["table"])
         if c["layout"] == "F":
             tab = np.asfortranarray(tab)
         elif c["layout"] == "readonly":
@@ -136,7 +148,8 @@ def case_to_coq(case, labels, cost):
 
 def describe(case):
     return {"stream": case["stream"], "table_hex": [[float(x).hex() for x in r] for r in case["table"]],
-            "beta_hex": [float(x).hex() for x in beta_vector(case)], "btype": case["btype"], "layout": case["layout"]}
+            "beta_hex": [float(x).hex() for x in beta_vector(case)], "btype": case["btype"], "layout": case["layout"],
+            "dtype": case.get("dtype", "float64")}
 
 
 def monitor_case(ctx, case, labels, cost, do_brute):
@@ -152,7 +165,7 @@ def monitor_case(ctx, case, labels, cost, do_brute):
     got = exact_cost(rows, betas, labels)
     M = float(np.sum(np.abs(tab)) + sum(betas))
     slack = Fraction(16 * T * M * 2.0 ** -52)
-    exact_regime = case["stream"] == "ints"
+    exact_regime = case["stream"] in ("ints", "dtype")
     if exact_regime:
         slack = Fraction(0)
     ok = True
@@ -278,7 +291,7 @@ def replay(ctx, data):
         return run(ctx)
     tab = np.array([[float.fromhex(x) for x in r] for r in c["table_hex"]])
     beta = np.array([float.fromhex(x) for x in c["beta_hex"]])
-    case = {"stream": c["stream"], "table": tab, "beta": beta, "btype": "float", "layout": c.get("layout", "C")}
+    case = {"stream": c["stream"], "table": tab, "beta": beta, "btype": "float", "layout": c.get("layout", "C"), "dtype": c.get("dtype", "float64")}
     r = kernel_batch([case])[0]
     print("replay: kernel returned", r[:2])
     if r[0] == "ERR":
